@@ -1,4 +1,4 @@
 ----------------------------- MODULE MC_SignedObj -----------------------------
 EXTENDS SignedObj, Json
-Emit == PrintT(<<"REPLAY", ToJson([op |-> "sigobj", kind |-> obj.kind, size |-> obj.size, fam |-> obj.fam, pol |-> obj.pol, f |-> obj.f, accept |-> Accept(obj), relaxed |-> DecidedRelaxed(obj)])>>)
+Emit == PrintT(<<"REPLAY", ToJson([op |-> "sigobj", kind |-> obj.kind, size |-> obj.size, fam |-> obj.fam, pol |-> obj.pol, alg |-> obj.alg, f |-> obj.f, accept |-> Accept(obj), relaxed |-> DecidedRelaxed(obj)])>>)
 =============================================================================
